@@ -178,5 +178,22 @@ package node
 //@   loop 0 invariant[last] (rangeindex == len(b.Body) - 1 || len(b.Body) == 0) ==> (descOnly(instr, srcsel) && operandOK(instr, srcsel, len(*cr.DS)) && bck(instr, srcsel) != bytecode.AddrImm
 //@       && (bck(instr, srcsel) == bytecode.AddrTmp ==> !fl.Data().ForbidTemp && (fl.Data().OpDepth > 0 || fl.Data().AcceptTemp || fl.Data().Discard)))
 //
+// condition emits the code of a condition followed by its (still unpatched) conditional jump and
+// returns the jump's address; field 1 of the jump is zero, so the target can be OR-ed in later.
+//@ func condition [C05,C12]
+//@   requires[sel] srcsel == 0
+//@   requires[ast] exprOK(condition) && fl.Data().OpDepth == 0
+//@   assumes[unfold] dyntype(condition) == typeid[UnOp]() ==> exprOK(condition.(UnOp).Target)
+//@   requires[cr]  crOK(cr)
+//@   modifies *cr.CS, allelems(*cr.CS), *cr.DS, allelems(*cr.DS), mapof(*cr.Dbg)
+//@   ensures[K2_code] csKept(cr) && csNewWF(cr) && dsKept(cr) && crOK(cr)
+//@   ensures[jump] result == len(*cr.CS) - 1 && result >= old(len(*cr.CS))
+//@       && (bcop((*cr.CS)[result]) == bytecode.JMPF || bcop((*cr.CS)[result]) == bytecode.JMPT) && bck((*cr.CS)[result], 1) == 0 && bca((*cr.CS)[result], 1) == 0
+//
+//@ func (If).byteCode [C05,C12] implements ByteCoder.byteCode
+//@   assumes[unfold] exprOK(i.Condition) && wfAST(i.TrueCase) && (dyntype(i.Condition) == typeid[UnOp]() ==> exprOK(i.Condition.(UnOp).Target))
+//@ func (IfElse).byteCode [C05,C12] implements ByteCoder.byteCode
+//@   assumes[unfold] exprOK(i.Condition) && wfAST(i.TrueCase) && wfAST(i.FalseCase) && (dyntype(i.Condition) == typeid[UnOp]() ==> exprOK(i.Condition.(UnOp).Target))
+//
 //@ canary func (Name).Name
 //@   ensures false
